@@ -10,6 +10,9 @@ package operator
 // Part H (history, zz_verif_c39_history_test.go): ordered pairs/triples of specs reconciled step by
 // step on ONE fake API server (the cluster object is edited in between); Part A oracle on the
 // StatefulSet then on the server, plus differential against a fresh server with the last spec.
+// Part P (publish over an existing snapshot, zz_verif_c39_publish_test.go): operator publish, broker-side
+// CreatePartitions / CreateTopic on the stored snapshot, operator publish again through the real
+// build -> merge -> encode steps of PublishMetadataSnapshot; the oracle judges the published payload.
 // Part B (bucket names): every (namespace, name) of the name alphabet goes through the real
 // defaultEtcdSnapshotBucket / snapshotBucket and through the real managed-etcd renderers
 // (SNAPSHOT_BUCKET of the etcd StatefulSet init container and of the snapshot CronJob); the
@@ -44,10 +47,13 @@ type c39Topic struct {
 }
 
 type c39Replay struct {
-	Kind    string     `json:"kind"` // "metadata" | "bucket" | "history" | "history-diff"
+	Kind    string     `json:"kind"` // "metadata" | "bucket" | "history" | "history-diff" | "publish"
 	Spec    vopSpec    `json:"spec"`
 	History []vopSpec  `json:"history,omitempty"` // specs reconciled on the same API server before the cluster was edited to Spec
 	Topics  []c39Topic `json:"topics,omitempty"`
+	// kind "publish": what the brokers did to the stored snapshot between the operator's two publishes
+	Grown         []c39Topic `json:"grown,omitempty"`          // CreatePartitions: topic name, number of partitions ADDED
+	BrokerCreated []c39Topic `json:"broker_created,omitempty"` // CreateTopic: topics that exist only in the stored snapshot
 }
 
 func c39Names(thorough bool) (names, namespaces []string) {
@@ -65,9 +71,14 @@ func c39TopicSets(thorough bool) [][]c39Topic {
 	if thorough {
 		maxTopics, maxParts = 3, 4
 	}
+	return append([][]c39Topic{nil}, c39TopicSetsN(1, maxTopics, maxParts)...)
+}
+
+// c39TopicSetsN: every topic set of minTopics..maxTopics topics with 1..maxParts partitions each, simplest first.
+func c39TopicSetsN(minTopics, maxTopics int, maxParts int32) [][]c39Topic {
 	tnames := []string{"orders", "payments", "t.3"}
-	sets := [][]c39Topic{nil}
-	for n := 1; n <= maxTopics; n++ {
+	var sets [][]c39Topic
+	for n := minTopics; n <= maxTopics; n++ {
 		dims := make([]int, n)
 		for i := range dims {
 			dims[i] = int(maxParts)
@@ -213,6 +224,25 @@ func c39CheckMetadata(rep *vh.Report, s vopSpec, rendered c39Rendered, topicSet 
 	deployed := int(*sts.Spec.Replicas)
 
 	cluster := vopCluster(s, "")
+	topics := c39ResourceTopics(s, topicSet)
+	meta, perr := c39BuildMetadata(cluster, topics)
+	if perr != "" {
+		rep.Violationf(kp+"metadata-render-panic", replay, "BuildClusterMetadata panicked (%s): nothing can be published; %s", perr, specStr)
+		return "panic", true
+	}
+	sig, countOK, hostKind := c39CheckAgainstSts(rep, kp, replay, specStr, s, sts, meta)
+	multiChoice := false
+	for _, tp := range topicSet {
+		if tp.Partitions >= 2 {
+			multiChoice = true
+		}
+	}
+	nontrivial := (deployed >= 2 && multiChoice) || hostKind == "advertised" || !countOK
+	return sig, nontrivial
+}
+
+// c39ResourceTopics are the KafscaleTopic resources of a topic set (list order = name order, as the API server lists them).
+func c39ResourceTopics(s vopSpec, topicSet []c39Topic) []kafscalev1alpha1.KafscaleTopic {
 	topics := make([]kafscalev1alpha1.KafscaleTopic, len(topicSet))
 	for i, tp := range topicSet {
 		topics[i] = kafscalev1alpha1.KafscaleTopic{
@@ -220,12 +250,14 @@ func c39CheckMetadata(rep *vh.Report, s vopSpec, rendered c39Rendered, topicSet 
 			Spec:       kafscalev1alpha1.KafscaleTopicSpec{ClusterRef: s.Name, Partitions: tp.Partitions},
 		}
 	}
-	meta, perr := c39BuildMetadata(cluster, topics)
-	if perr != "" {
-		rep.Violationf(kp+"metadata-render-panic", replay, "BuildClusterMetadata panicked (%s): nothing can be published; %s", perr, specStr)
-		return "panic", true
-	}
+	return topics
+}
 
+// c39CheckAgainstSts is the agreement oracle of the statement between a metadata snapshot and the broker
+// StatefulSet (sts.Spec.Replicas must be set): one broker per replica with the pod ordinals as node ids and the
+// pod's stable address, every leader among them, partitions of every topic numbered 0..n-1.
+func c39CheckAgainstSts(rep *vh.Report, kp string, replay any, specStr string, s vopSpec, sts *appsv1.StatefulSet, meta metadata.ClusterMetadata) (sig string, countOK bool, hostKind string) {
+	deployed := int(*sts.Spec.Replicas)
 	class := "replicas-set"
 	switch {
 	case s.Replicas == nil:
@@ -233,15 +265,14 @@ func c39CheckMetadata(rep *vh.Report, s vopSpec, rendered c39Rendered, topicSet 
 	case *s.Replicas == 0:
 		class = "replicas-zero"
 	}
-	sig := fmt.Sprintf("%s deployed=%d published=%d", class, deployed, len(meta.Brokers))
-	countOK := len(meta.Brokers) == deployed
+	sig = fmt.Sprintf("%s deployed=%d published=%d", class, deployed, len(meta.Brokers))
+	countOK = len(meta.Brokers) == deployed
 	if !countOK {
 		rep.Violationf(kp+"broker-count:"+class, replay,
 			"metadata lists %d broker(s) but the rendered StatefulSet %s deploys %d replica(s); %s", len(meta.Brokers), sts.Name, deployed, specStr)
 	}
 
 	ids := map[int32]bool{}
-	hostKind := ""
 	for _, b := range meta.Brokers {
 		ids[b.NodeID] = true
 	}
@@ -304,14 +335,7 @@ func c39CheckMetadata(rep *vh.Report, s vopSpec, rendered c39Rendered, topicSet 
 		}
 		sig += fmt.Sprintf(" t[%d]=%v", len(tp.Partitions), leaders)
 	}
-	multiChoice := false
-	for _, tp := range topicSet {
-		if tp.Partitions >= 2 {
-			multiChoice = true
-		}
-	}
-	nontrivial := (deployed >= 2 && multiChoice) || hostKind == "advertised" || !countOK
-	return sig, nontrivial
+	return sig, countOK, hostKind
 }
 
 func c39IDs(m metadata.ClusterMetadata) []int32 {
@@ -439,6 +463,7 @@ func TestVerifC39(t *testing.T) {
 	rep.Rule = "Part A: product replicas x advertisedHost x advertisedPort x name x namespace x topic set; broker StatefulSet rendered by the real reconcileBrokerDeployment on the fake API server, metadata by the real BuildClusterMetadata; " +
 		"oracle: #brokers == rendered replicas, node ids == pod ordinals, host == address the rendered container env gives that pod, port == KAFSCALE_BROKER_PORT, leaders among brokers, partitions 0..n-1. " +
 		"Part H: every ordered pair (thorough: triple) of specs over replicas x advertisedHost x advertisedPort is reconciled step by step on ONE fake API server (cluster object updated between steps; real reconcileBrokerDeployment + reconcileBrokerHeadlessService); the Part A oracle is applied between the StatefulSet then on the server and BuildClusterMetadata(last spec), and the specs of all generated objects must equal those of a fresh server reconciled once with the last spec. Non-trivial (H): the last edit changes the fresh render. " +
+		"Part P: replicas x topic-resource sets of 2-3 topics x broker-side change (one topic at any position grown by CreatePartitions, thorough: any vector of growths; and/or a broker-created topic): first publish, the brokers' real InMemoryStore changes the stored JSON, second publish by BuildClusterMetadata -> json.Unmarshal(stored) -> mergeSnapshots -> json.Marshal; the decoded payload must satisfy the Part A oracle, list every resource/stored topic once with max(resource, stored) partitions numbered 0..n-1, replica ids of deployed pods, stable topic ids, and each topic's entry must equal the one published when it is the only topic. Non-trivial (P): the brokers changed the stored snapshot. " +
 		"Part B: (namespace, name) pairs through defaultEtcdSnapshotBucket/snapshotBucket and the rendered SNAPSHOT_BUCKET env values, checked against the S3 bucket grammar. " +
 		"Non-trivial: >=2 deployed brokers with a multi-partition topic (leader choice matters), or the advertised host is used, or broker count differs (A); the sanitiser rewrote the raw name or the result is invalid (B)."
 	rep.Assumptions = []string{
@@ -446,6 +471,7 @@ func TestVerifC39(t *testing.T) {
 		"a pod's stable address is <statefulset>-<ordinal>.<spec.serviceName>.<namespace>.svc.cluster.local unless KAFSCALE_BROKER_HOST is set in its env",
 		"S3 bucket grammar: 3-63 chars [a-z0-9.-], alphanumeric ends, no '..', not IP-formatted (reserved prefixes/suffixes not judged)",
 		"operator environment at defaults (no KAFSCALE_OPERATOR_ETCD_SNAPSHOT_BUCKET override: an operator-supplied bucket is not a derived name)",
+		"publish part: only the in-memory steps of PublishMetadataSnapshot run (no etcd Get/Txn/retry); both publishes use the same cluster spec and topic resources; broker-side changes are those of the real metadata.InMemoryStore persisted as JSON like EtcdStore does",
 	}
 
 	var rp c39Replay
@@ -465,6 +491,9 @@ func TestVerifC39(t *testing.T) {
 			}
 			h := &c39HistCtx{rep: rep, scheme: scheme, kinds: vopListKinds(scheme), fresh: map[string]c39HistResult{}}
 			h.c39CheckHistory(append(append([]vopSpec(nil), rp.History...), rp.Spec), [][]c39Topic{rp.Topics})
+		case "publish":
+			sig, nt := c39CheckPublish(rep, rp.Spec, c39RenderBrokers(scheme, rp.Spec), rp.Topics, rp.Grown, rp.BrokerCreated)
+			rep.Outcome(sig, nt)
 		default:
 			sig, nt := c39CheckMetadata(rep, rp.Spec, c39RenderBrokers(scheme, rp.Spec), rp.Topics, nil)
 			rep.Outcome(sig, nt)
@@ -547,6 +576,11 @@ func TestVerifC39(t *testing.T) {
 	// ---- Part H: spec edit histories on one API server
 	if !capped {
 		capped = c39HistoryPart(rep, scheme, topicSets, thorough, deadline)
+	}
+
+	// ---- Part P: publish over an existing snapshot that the brokers have changed
+	if !capped {
+		capped = c39PublishPart(rep, scheme, thorough, deadline)
 	}
 
 	// ---- Part B (simplest first, so the first counterexample is the shortest)
